@@ -11,6 +11,7 @@ C11: at an ADEV site the interpreter hands the primitive the dual arguments and 
 from __future__ import annotations
 
 import types
+from vt.stubs.ns import StubNS
 
 import jax.tree_util as real_jtu
 import z3
@@ -145,7 +146,7 @@ def j_where(c, a, b):
 JNP = jnp_stub.namespace(
     array=j_array, sum=_dn(jnp_stub.sum), broadcast_arrays=broadcast_arrays, zeros_like=zeros_like, ones_like=ones_like,
     eye=eye, logical_not=logical_not, broadcast_to=broadcast_to, reshape=lambda x, s: x.reshape(s) if isinstance(x, Tensor) else x,
-    linalg=types.SimpleNamespace(cholesky=cholesky), float32=lambda x: x, bool_="bool",
+    linalg=StubNS(cholesky=cholesky), float32=lambda x: x, bool_="bool",
 )
 adev.jnp = JNP
 adev.jtu = jtu_stub.namespace()
@@ -162,13 +163,13 @@ def grad_rec(f):
     return g
 
 
-adev.jax = types.SimpleNamespace(
+adev.jax = StubNS(
     jvp=AD.jvp,
     grad=grad_rec,
-    lax=types.SimpleNamespace(cond=lax_stub.cond, cond_p=J.cond_p),
-    nn=types.SimpleNamespace(softmax=softmax),
-    _src=types.SimpleNamespace(core=types.SimpleNamespace(get_aval=AD.get_aval, ShapedArray=AD.ShapedArray)),
-    dtypes=types.SimpleNamespace(float0=AD.FLOAT0),
+    lax=StubNS(cond=lax_stub.cond, cond_p=J.cond_p),
+    nn=StubNS(softmax=softmax),
+    _src=StubNS(core=StubNS(get_aval=AD.get_aval, ShapedArray=AD.ShapedArray)),
+    dtypes=StubNS(float0=AD.FLOAT0),
     custom_jvp=lambda f: f,
 )
 adev.stage = S.STAGE
@@ -235,6 +236,12 @@ Dual = adev.Dual
 
 def teq(a, b):
     return same(a, b)
+
+
+def dim_eq_(a, b):
+    from vt.tensor import dim_eq
+
+    return dim_eq(a, b)
 
 
 # ================================================================================================
@@ -827,7 +834,7 @@ class FlipMVDC(_Prim):
         yield "averages_over_outcomes_to_the_exact_derivative", p * tan(T) + (1 - p) * tan(F) == dp * (k.KP(T) - k.KP(F)) + p * k.KT(T) + (1 - p) * k.KT(F)
 
 
-@contract("genjax.adev:REINFORCE.prim_jvp_estimate", ["C11"])
+@contract("genjax.adev:REINFORCE.prim_jvp_estimate", ["C11", "C17"])
 class ReinforceC(_Prim):
     """v ~ sampler(theta); estimate (f(v), f'(v) + f(v) * d/dtheta logpdf(v; theta)[theta']) with the tangent of THIS
     primitive's own logpdf at the drawn value (zero tangent for v)"""
@@ -904,7 +911,7 @@ class FlipReinforceLemma(Contract):
 class NormalReparamC(_Prim):
     """x = mu + sigma*eps with eps ~ N(0,1) drawn with PARAMETER-FREE arguments; continuation on Dual(x, mu' + sigma' eps)"""
 
-    cases = ["scalar", "vector"]
+    cases = ["scalar", "vector", "broadcast(scalar_mu,vector_sigma)", "broadcast(vector_mu,scalar_sigma)"]
 
     def call(self, case):
         reset()
@@ -916,6 +923,10 @@ class NormalReparamC(_Prim):
             engine().assume(n >= 1)
             self.n = n
             self.mu, self.sg, self.dmu, self.dsg = (Tensor.fresh(x, (n,)) for x in ("mu", "sigma", "dmu", "dsigma"))
+            if case.startswith("broadcast(scalar_mu"):
+                self.mu, self.dmu = real("mu"), real("dmu")
+            elif case.startswith("broadcast(vector_mu"):
+                self.sg, self.dsg = real("sigma"), real("dsigma")
         return self.real(adev.NormalREPARAM().prim_jvp_estimate, (Dual(self.mu, self.dmu), Dual(self.sg, self.dsg)), (self.k.kpure, self.k.kdual))
 
     def ensures(self, case, path):
@@ -937,10 +948,12 @@ class NormalReparamC(_Prim):
         else:
             i = fresh("i", z3.IntSort())
             a0, a1 = sc["args"]
-            yield "noise_is_standard_normal_of_the_broadcast_shape", isinstance(a0, Tensor) and z3.And(a0.fn((i,)) == 0, a1.fn((i,)) == 1)
+            at = lambda x: x.fn((i,)) if isinstance(x, Tensor) else _lift(x)
+            # one independent noise coordinate per element of the BROADCAST shape of (mu, sigma)
+            yield "noise_is_standard_normal_of_the_broadcast_shape", isinstance(a0, Tensor) and isinstance(a1, Tensor) and dim_eq_(a0.shape[0], self.n) and z3.And(a0.fn((i,)) == 0, a1.fn((i,)) == 1)
             eps = dists.DrawRI(NRM.id, sc["nonce"], i, z3.RealVal(0), z3.RealVal(1))
-            yield "primal_is_mu_plus_sigma_eps", d.primal.fn((i,)) == self.mu.fn((i,)) + self.sg.fn((i,)) * eps
-            yield "tangent_is_pathwise_derivative_for_the_noise_drawn", d.tangent.fn((i,)) == self.dmu.fn((i,)) + self.dsg.fn((i,)) * eps
+            yield "primal_is_mu_plus_sigma_eps_with_independent_noise_per_coordinate", isinstance(d.primal, Tensor) and d.primal.fn((i,)) == at(self.mu) + at(self.sg) * eps
+            yield "tangent_is_pathwise_derivative_for_the_noise_drawn", isinstance(d.tangent, Tensor) and d.tangent.fn((i,)) == at(self.dmu) + at(self.dsg) * eps
         yield "returns_the_continuations_dual", isinstance(path.value, Dual)
 
 
@@ -998,7 +1011,7 @@ class UniformReparamC(_Prim):
         yield "tangent_is_pathwise_derivative", same(d.tangent, Sym(self.dlo.e + (self.dhi.e - self.dlo.e) * eps))
 
 
-@contract("genjax.adev:MultivariateNormalREPARAM.prim_jvp_estimate", ["C11"])
+@contract("genjax.adev:MultivariateNormalREPARAM.prim_jvp_estimate", ["C11", "C17"])
 class MvnReparamC(_Prim):
     """x = loc + chol(cov) @ eps with eps ~ N(0, I) parameter-free; tangent loc' + dchol(cov)[cov'] @ eps"""
 
@@ -1143,7 +1156,7 @@ def bound_params(cls_name, args, kwargs):
     return {k: v for k, v in b.items() if k not in ("dtype", "validate_args", "allow_nan_stats", "name")}
 
 
-@contract("genjax.adev:<reinforce distributions>", ["C11", "C13"])
+@contract("genjax.adev:<reinforce distributions>", ["C11", "C17", "C13"])
 class ReinforcePairing(_NoReplay):
     """for flip/geometric/normal/uniform/multivariate_normal _reinforce: the keyed sampler used under seed and the
     density used by the estimator (and by assess) denote the SAME TFP distribution with the SAME parameter binding"""
@@ -1171,7 +1184,7 @@ class ReinforcePairing(_NoReplay):
         # (1) keyed sampler of the estimator primitive, against a recording TFP namespace
         self.log_keyed = []
         lk = self.log_keyed
-        stub = types.SimpleNamespace()
+        stub = StubNS()
         for nm in ("Bernoulli", "Geometric", "Normal", "Uniform", "MultivariateNormalFullCovariance", "Categorical", "MultivariateNormalDiag"):
             setattr(stub, nm, (lambda nm: lambda *a, **k: TfpRec2(lk, nm, a, k))(nm))
         self._tfd = adev.tfd
@@ -1187,7 +1200,7 @@ class ReinforcePairing(_NoReplay):
         lb = self.log_base
         if getattr(ctor, "__name__", "") == "<lambda>":
             self._dtfd = D.tfd
-            D.tfd = stub2 = types.SimpleNamespace()
+            D.tfd = stub2 = StubNS()
             for nm in ("Bernoulli", "Categorical"):
                 setattr(stub2, nm, (lambda nm: lambda *a, **k: TfpRec2(lb, nm, a, k))(nm))
             try:
@@ -1255,3 +1268,8 @@ class SamplePrimitive(_NoReplay):
 from vt.contract import track as _track  # noqa: E402
 
 _track(FLIPS.calls, (NRM, "sample_calls"), (UNI, "sample_calls"), GRADS, S.STAGE.calls)
+
+from vt.contract import canary as _canary  # noqa: E402
+
+_canary(FlipEnumC, "scalar", "tangent_is_exact_derivative")
+_canary(FlipMVDC, "scalar", "tangent_is_f'(b)_plus_(f_T-f_F)p'_for_either_outcome")
